@@ -279,9 +279,30 @@ def history(bib, rnd, depth, cid):
     return {"id": cid, "ev": evs}
 
 
+def binding_selftest(chk, cases):
+    """The trace specification must REJECT a recording with one corrupted field (otherwise it binds nothing)."""
+    import copy
+    src = next((c for c in cases if len(c["ev"]) >= 3 and c["ev"][2]["v"]["blocks"]), None)
+    if src is None:
+        return
+    bad = []
+    c1 = copy.deepcopy(src); c1["id"] = 0
+    c1["ev"][2]["v"]["blocks"] = list(reversed(c1["ev"][2]["v"]["blocks"])) + ["bogus"]
+    c2 = copy.deepcopy(src); c2["id"] = 1
+    c2["ev"][1]["out"] = "ValueError" if c2["ev"][1]["out"] == "ok" else "ok"
+    c3 = copy.deepcopy(src); c3["id"] = 2
+    c3["ev"][2]["v"]["entries_dict"] = c3["ev"][2]["v"]["entries_dict"] + [["no-such-key", "bogus"]]
+    v = core.validate_traces("Trace_Library", [c1, c2, c3], shards=1)
+    rejected = {r["reject"] for r in v.rejects}
+    if rejected != {0, 1, 2}:
+        raise core.MachineryError(f"Trace_Library accepted a corrupted recording (rejected only {sorted(rejected)}): the binding is vacuous")
+    chk.extra["binding_selftest"] = "3 corrupted recordings (blocks view, outcome, entries_dict) rejected by Trace_Library"
+
+
 def t3(chk, bib, ncases, depths):
     rnd = random.Random(chk.seed + 8)
     cases = [history(bib, rnd, rnd.choice(depths), cid) for cid in range(ncases)]
+    binding_selftest(chk, cases)
     verdict = core.validate_traces("Trace_Library", cases, shards=16)
     for r in verdict.results:
         chk.add_tlc(r, "Trace_Library shard", count_states=False)
@@ -308,6 +329,47 @@ def t3(chk, bib, ncases, depths):
                     "blocks_after": c["ev"][3]["v"]["blocks"] if len(c["ev"]) > 3 else None})
 
 
+def t3_repo_tests(chk):
+    """The repository's own test-suite as a trace source: every outermost Library call it makes is recorded by a pytest
+    plugin (harness/plugin_record.py, wrapping from outside) and the histories are validated by Trace_Library."""
+    import json
+    import os
+    import subprocess
+    import tempfile
+    out = os.path.join(tempfile.mkdtemp(prefix="suite-", dir=core.scratch()), "library_histories.json")
+    env = dict(os.environ, PYTHONPATH=core.VERIF + os.pathsep + core.REPO, VERIF_TRACE_OUT=out, PYTHONDONTWRITEBYTECODE="1")
+    env.pop(core.GUARD, None)
+    r = subprocess.run([os.sys.executable, "-m", "pytest", "-q", "-x", "-p", "no:cacheprovider", "-p", "harness.plugin_record", "tests"],
+                       cwd=core.REPO, env=env, capture_output=True, text=True, timeout=1200)
+    if not os.path.exists(out):
+        raise core.MachineryError("recording the repository's test-suite produced no trace file:\n" + r.stdout[-800:] + r.stderr[-800:])
+    cases = json.load(open(out))
+    chk.extra["repo_suite_histories"] = len(cases)
+    chk.extra["repo_suite_events"] = sum(len(c["ev"]) for c in cases)
+    chk.extra["repo_suite_pytest_exit"] = r.returncode
+    if not cases:
+        raise core.MachineryError("the repository's test-suite made no Library call?")
+    verdict = core.validate_traces("Trace_Library", cases, shards=8)
+    for x in verdict.results:
+        chk.add_tlc(x, "Trace_Library (repository test-suite histories)", count_states=False)
+    byid = {c["id"]: c for c in cases}
+    for n in verdict.notes:
+        if "deviation" in n:
+            c = byid[n["id"]]
+            sig = {"id": {"AddRaiseAfterInsert": "C08-add-raise-after-insert", "RemovePartial": "C08-remove-partial"}[n["deviation"]]}
+            ev = c["ev"][n["at"] - 1]
+            chk.mismatch(n["clause"], {"kind": "suite_history", "ev": c["ev"][:n["at"]]}, {"out": ev["out"], "v": ev["v"]},
+                         "ideal action of Library.tla (unchanged state on ValueError)", signature=sig, kind="library_history")
+    for rj in verdict.rejects:
+        c = byid[rj["reject"]]
+        ev = c["ev"][rj["at"] - 1]
+        chk.mismatch(rj["clause"], {"kind": "suite_history", "ev": [{k: v for k, v in e.items() if k != "v"} for e in c["ev"][:rj["at"]]]},
+                     {"out": ev["out"], "v": ev["v"]}, rj["expected"], spec={"module": "Trace_Library"}, kind="library_history")
+    chk.traces += len(cases) - len(verdict.rejects)
+    chk.evaluations += len(cases)
+    chk.clause("T3.repository_test_suite_events", sum(len(c["ev"]) for c in cases))
+
+
 def run(chk: core.Check):
     bib = core.import_repo()
     chk.extra["rule"] = ("T2: every edge (state, operation) of the complete reachable graph of Library.tla within the "
@@ -319,6 +381,7 @@ def run(chk: core.Check):
     else:
         t2(chk, bib, 3, OBJS_FULL, ["E1a", "E1b", "S1a", "P", "E2"])
         t3(chk, bib, 800, [30, 60, 120, 200])
+    t3_repo_tests(chk)
     chk.exhaustive = True
     # non-vacuity of RaiseKeeps on the model: with the deviation actions enabled TLC must find a counterexample
     r = core.run_tlc("MC_Library", cfg(2, ["E1a", "E1b", "P"], ["E1a", "E1b"], withdev=True), expect_complete=False,
